@@ -428,6 +428,16 @@ func Eval(c *core.Ctx, line string) *core.Case {
 			cs.Cmp = func(a, b string) bool { return true } // getters of an invalid view are unspecified
 		} else if isOpaque {
 			cs.Cmp = func(a, b string) bool { return b == "unknown-getter" }
+		} else {
+			// For a valid view the model's getter table (Model/Views.lean, reviewed against the RFC layouts and
+			// compared term by term with the Go getter bodies by Props/C02GetterTie) is the reference decoder of
+			// C02: a getter value that differs from it is a concrete failing input, not just a broken tie.
+			cs.OracleR = func(reply string) (string, string) {
+				if reply == impl || reply == "unknown-getter" || impl == "panic" || strings.HasPrefix(reply, "bad") {
+					return "", ""
+				}
+				return fmt.Sprintf("%s.%s() of a valid view returns %s; the field at its RFC position (reference table) is %s", view, method, impl, reply), ""
+			}
 		}
 		return cs
 	case "parse":
